@@ -3,6 +3,7 @@ import Pocket.Lemmas.FromSourceConsts
 import Pocket.Lemmas.StoreRead
 import Pocket.Lemmas.Layout
 import Pocket.Lemmas.EventMap
+import Pocket.Lemmas.FromSourceEventMap
 /-
 C04 — stored events read back byte-identical, forever.
 `Inv` (Lemmas/StoreInv) holds in every state reachable from the empty store by any history
@@ -176,5 +177,22 @@ theorem spec_store_logged (a : Abs) (e : EventRec) (off : Nat) (h : (absStore a 
     · cases h
   · simp only [c5, if_false, Reply.ok.injEq] at h ⊢
     subst h; simp
+
+/-- the event-map model these theorems are about is `event_store.rs` as it reads today (matched and translated on every run):
+`EventStore::new` takes a file for new, sizes it and remembers its length exactly as `emOpen` does; `store_event` pads to a multiple of
+8 as `emPad` does; and one round of its grow path sets file, mapping and remembered length to the REMEMBERED length plus one chunk,
+in the order set_len / resize / remember, as `emGrow` does -/
+theorem event_map_from_source (chunk fileLen marker : Nat) (m : EMap) :
+    (emOpen chunk fileLen marker =
+      (let len := Src.esInitLen chunk fileLen marker 8 8
+       if len < 8 then .err
+       else .ok { fileLen := len, marker := if Src.esNew fileLen marker 8 8 then 8 else marker,
+                  memLen := Src.esRemembered len, mapLen := len })) ∧
+    emPad m = Src.esPad m.marker ∧
+    emGrow chunk m =
+      { m with fileLen := (Src.esGrow chunk m.fileLen m.mapLen m.memLen).1,
+               mapLen := (Src.esGrow chunk m.fileLen m.mapLen m.memLen).2.1,
+               memLen := (Src.esGrow chunk m.fileLen m.mapLen m.memLen).2.2 } :=
+  ⟨em_open_from_source chunk fileLen marker, em_pad_from_source m, em_grow_from_source chunk m⟩
 
 end Pocket.C04
